@@ -53,11 +53,28 @@ def run(chk, repo, tier):
     ok_res = (mul and mul[0] == "func" and mul[1].qualname == f"{OC}.multiply" and inf and inf[0] == "func" and inf[1].qualname == f"{OC}.is_inf")
     chk.ob("C17.R1", f.qualname, "multiply / is_inf resolve to the optimized BLS12-381 curve module", bool(ok_res),
            f"multiply -> {mul[1].qualname if mul else None}, is_inf -> {inf[1].qualname if inf else None}", f.where)
-    it = Interp(w, summaries={mul[1].qualname: opaque("multiply", "point"), inf[1].qualname: opaque("is_inf", "bool")})
-    r = it.call_func(f, [P], {})
+    from ..interp import enumerate_paths
     want = Term("is_inf", (Term("multiply", (P, BLS["r"]), "point"),), "bool")
-    chk.ob("C17.R1", f.qualname, "returns is_inf(multiply(P, r)), r = x⁴ − x² + 1 prime", r is want and is_prime(BLS["r"]),
-           f"got {show(r)[:200]}", f.where)
+    infP = Term("is_inf", (P,), "bool")
+    spaths = enumerate_paths(w, lambda it: it.call_func(f, [P], {}),
+                             summaries={mul[1].qualname: opaque("multiply", "point"), inf[1].qualname: opaque("is_inf", "bool")})
+    bad = []
+    for pth in spaths:
+        pd = " ".join(pth.branch_lines()) or "(straight line)"
+        if pth.outcome != "return":
+            bad.append(f"raises {pth.value.clsname()} on path {pd}")
+            continue
+        v = pth.value
+        facts = {a: t for a, t, _w in pth.facts}
+        if v is want:
+            continue
+        if isinstance(v, bool) and want in facts and facts[want] is v:
+            continue                # the value of the test itself, returned through a branch
+        if v is True and facts.get(infP) is True:
+            continue                # [r]O = O: the identity is a member
+        bad.append(f"returns {show(v)[:120]} on path {pd}")
+    chk.ob("C17.R1", f.qualname, "returns is_inf(multiply(P, r)), r = x⁴ − x² + 1 prime, on every path", not bad and bool(spaths) and is_prime(BLS["r"]),
+           "; ".join(bad[:2]) or f"{len(spaths)} path(s)", f.where)
     # ---- constants
     it0 = Interp(w)
     cm = repo.module("py_ecc.optimized_bls12_381.constants")
@@ -68,12 +85,24 @@ def run(chk, repo, tier):
     chk.ob("C17.R2", "py_ecc.bls.constants.G2_COFACTOR", "= h2(x)", g2cof == BLS["h2"], hex(g2cof)[:60], "py_ecc/bls/constants.py")
     ccm = repo.module(CC)
     cmul = repo.resolve_binding(ccm, "multiply")
-    it2 = Interp(w, summaries={cmul[1].qualname: opaque("multiply", "point")})
+    csumm = {cmul[1].qualname: opaque("multiply", "point")}
+    for nm_ in ("is_inf", "eq", "is_on_curve", "normalize"):
+        rb = repo.resolve_binding(ccm, nm_)
+        if rb and rb[0] == "func":
+            csumm[rb[1].qualname] = opaque(nm_, "bool" if nm_ in ("is_inf", "eq", "is_on_curve") else "point")
     for fn, const, nm in (("multiply_clear_cofactor_G1", BLS["h_eff_g1"], "H_EFF_G1"), ("multiply_clear_cofactor_G2", BLS["h_eff_g2"], "H_EFF_G2")):
         ff = repo.func(f"{CC}.{fn}")
-        rr = it2.call_func(ff, [P], {})
-        chk.ob("C17.R2", ff.qualname, f"multiply(P, {nm}) on the optimized BLS curve module",
-               rr is Term("multiply", (P, const), "point") and cmul[1].qualname == f"{OC}.multiply", f"got {show(rr)[:120]}", ff.where)
+        cpaths = enumerate_paths(w, lambda it, ff=ff: it.call_func(ff, [P], {}), summaries=csumm)
+        wantc = Term("multiply", (P, const), "point")
+        badc = []
+        for pth in cpaths:
+            pd = " ".join(pth.branch_lines()) or "(straight line)"
+            if pth.outcome != "return":
+                badc.append(f"raises {pth.value.clsname()} on path {pd}")
+            elif pth.value is not wantc:
+                badc.append(f"returns {show(pth.value)[:120]} on path {pd}")
+        chk.ob("C17.R2", ff.qualname, f"multiply(P, {nm}) on the optimized BLS curve module, on every path",
+               not badc and bool(cpaths) and cmul[1].qualname == f"{OC}.multiply", "; ".join(badc[:2]) or f"{len(cpaths)} path(s)", ff.where)
     # ---- orders
     p, rr, t, h1, h2 = BLS["p"], BLS["r"], BLS["t"], BLS["h1"], BLS["h2"]
     chk.ob("C17.R3", "oracle", "#E(F_p) = p + 1 − t = h1·r, t = x + 1 (Hasse: t² ≤ 4p)", p + 1 - t == h1 * rr and t * t <= 4 * p, "", "vstatic/spec/params.py")
